@@ -5,6 +5,8 @@ limit is `C10_layer_bytes` in Properties/C10Layer.lean).
 import Scalibr.Proofs.WalkInv
 import Scalibr.Proofs.WalkMore
 import Scalibr.Spec.Walk
+import Scalibr.Proofs.WalkLimit
+import Scalibr.Proofs.WalkCancel
 namespace Scalibr.Walk
 
 /-- Whatever the forest, fault plans, options and cancellation point: `AfterInodeVisited` — i.e. an inode
@@ -56,5 +58,85 @@ theorem C10_cancel_before (c : Cfg) (hc : c.cancelBefore = true) (hp : c.paths =
 def exC : Cfg := { nExt := 1, required := fun _ _ => true, extract := fun _ _ => {}, maxFileSize := 5,
                    giMatch := fun _ _ _ _ => false }
 example : (mustOne exC {} [] ⟨["at"], .reg, 5, []⟩).length = 1 ∧ mustOne exC {} [] ⟨["over"], .reg, 6, []⟩ = [] := by decide
+
+/-! ### exact behaviour at the inode limit and under cancellation (refinement to the specification)
+
+Both follow from `run_trace` (Proofs/WalkTrace.lean): whenever filesystem errors are not fatal and
+extractors do not panic, model A behaves — for every forest, fault plan, option combination, limit and
+cancellation point — like the sequential machine "count the inode, check the context, make the attempts"
+run over `traceScan`, the specification's list of `handleFile` calls. -/
+
+/-- "… fails when the tree holds more": with an inode limit (errors not fatal, no cancellation, no extractor
+panic) the scan fails with the MaxInodes error EXACTLY when the forest holds more inodes to visit than the
+limit, and reports exactly `min visitsScan MaxInodes` visited inodes.  `visitsScan` (Spec/WalkCount.lean) is
+defined on the trees, fault plans and skip rules only; the counter is shared by all roots. -/
+theorem C10_inodes_exact (c : Cfg) (hl : LimitCfg c) (hd : DomainLaw c.giMatch) (roots : List (Node × Faults)) :
+    (run c roots).err = (if visitsScan c roots > c.maxInodes then .maxInodes else .none) ∧
+    (run c roots).visited = min (visitsScan c roots) c.maxInodes :=
+  run_limit c hl hd roots
+
+/-- "… once its context is cancelled starts no extraction on any further file … reporting failure whenever
+work remained": the context is cancelled from inside the k-th `Extract` (no inode limit, errors not fatal,
+no extractor panic).  `mustExtract` = the attempts owed without cancellation; `traceScan` = the
+`handleFile` calls of the uncancelled scan in order, each with its attempts (first two conjuncts: it is
+`mustExtract` grouped by call, and all attempts of one call concern one file).
+* fewer than `k` `Extract` calls owed: never cancelled — success, exactly `mustExtract`, every inode visited;
+* otherwise, with `blk` the call in which the k-th `Extract` happens (`pre`/`post` = the calls before/after;
+  the decomposition is unique): the scan makes exactly the attempts of `pre` and ALL of `blk` (the remaining
+  extractors of the file being handled still run), nothing of `post`; it fails with the context error iff
+  a `handleFile` call remained (`post ≠ []`: a further file, directory or error report), which is still
+  counted as visited. -/
+theorem C10_cancel_trace (c : Cfg) (k : Nat) (hc : CancelCfg c k) (hd : DomainLaw c.giMatch) (roots : List (Node × Faults)) :
+    (traceScan c roots).flatten = mustExtract c roots ∧ (∀ b ∈ traceScan c roots, OnePath b) ∧
+    (openedCount (mustExtract c roots) < k →
+      (run c roots).err = .none ∧ (run c roots).calls = mustExtract c roots ∧
+      (run c roots).visited = visitsScan c roots) ∧
+    (k ≤ openedCount (mustExtract c roots) → ∃ pre blk post, traceScan c roots = pre ++ blk :: post ∧
+      openedCount pre.flatten < k ∧ k ≤ openedCount (pre.flatten ++ blk) ∧
+      (run c roots).calls = pre.flatten ++ blk ∧
+      (run c roots).err = (if post = [] then .none else .ctx) ∧
+      (run c roots).visited = pre.length + 1 + (if post = [] then 0 else 1)) :=
+  run_cancel c k hc hd roots
+
+/-- … and in terms of `mustExtract` alone: the attempts made are a prefix of the attempts owed; the scan
+fails — with the context error — whenever an owed attempt was not made; the attempts from the cancelling
+one on (`blk`) all concern one file. -/
+theorem C10_cancel_prefix (c : Cfg) (k : Nat) (hc : CancelCfg c k) (hd : DomainLaw c.giMatch) (roots : List (Node × Faults)) :
+    ∃ rest, mustExtract c roots = (run c roots).calls ++ rest ∧
+      (rest ≠ [] → (run c roots).err = .ctx) ∧
+      ((run c roots).err = .none ∨ (run c roots).err = .ctx) ∧
+      (openedCount (mustExtract c roots) < k → rest = [] ∧ (run c roots).err = .none) ∧
+      (k ≤ openedCount (mustExtract c roots) → ∃ done blk, (run c roots).calls = done ++ blk ∧
+        openedCount done < k ∧ k ≤ openedCount (done ++ blk) ∧ OnePath blk) :=
+  run_cancel_prefix c k hc hd roots
+
+/-! Non-vacuity (specification side only).  A tree with 5 inodes to visit (also 5 when directory `d` cannot be
+opened: the failure is reported by a second call and `b` is not reached; 6 + 1 with a failing end-of-listing
+read of the root and a second root, since the counter is shared) against a limit of 3 / of 5. -/
+def exL (n : Nat) : Cfg := { nExt := 1, required := fun _ _ => true, extract := fun _ _ => {}, maxInodes := n,
+                             giMatch := fun _ _ _ _ => false }
+def exTree : Node := .dir none [("a", .file .reg 1), ("d", .dir none [("b", .file .reg 2)]), ("e", .file .reg 3)]
+example : LimitCfg (exL 3) ∧ DomainLaw (exL 3).giMatch := ⟨⟨by decide, rfl, rfl, rfl, fun _ _ => rfl⟩, fun _ _ _ _ _ => rfl⟩
+example : visitsScan (exL 3) [(exTree, {})] = 5 ∧ visitsScan (exL 3) [(exTree, { openFail := fun p => p = ["d"] })] = 5 ∧
+    visitsScan (exL 3) [(exTree, { readEntryFail := fun p k => p = [] ∧ k = 3 }), (.file .reg 1, {})] = 7 := by decide
+/-- the theorem at work: over the limit the scan fails after exactly 3 visits, at the limit it succeeds -/
+example : (run (exL 3) [(exTree, {})]).err = .maxInodes ∧ (run (exL 3) [(exTree, {})]).visited = 3 ∧
+    (run (exL 5) [(exTree, {})]).err = .none := by
+  have h3 := C10_inodes_exact (exL 3) ⟨by decide, rfl, rfl, rfl, fun _ _ => rfl⟩ (fun _ _ _ _ _ => rfl) [(exTree, {})]
+  have h5 := C10_inodes_exact (exL 5) ⟨by decide, rfl, rfl, rfl, fun _ _ => rfl⟩ (fun _ _ _ _ _ => rfl) [(exTree, {})]
+  rw [h3.1, h3.2, h5.1]
+  decide
+
+/-! Two extractors, cancellation from inside the 1st `Extract`: the second extractor still gets file `a`,
+file `b` gets nothing, and the scan fails because `b` remained. -/
+def exK (k : Nat) : Cfg := { nExt := 2, required := fun _ _ => true, extract := fun _ _ => {}, cancelAt := some k,
+                             giMatch := fun _ _ _ _ => false }
+def exTree2 : Node := .dir none [("a", .file .reg 1), ("b", .file .reg 2)]
+example : CancelCfg (exK 1) 1 ∧ DomainLaw (exK 1).giMatch := ⟨⟨rfl, rfl, rfl, rfl, by decide, fun _ _ => rfl⟩, fun _ _ _ _ _ => rfl⟩
+example : traceScan (exK 1) [(exTree2, {})] =
+    [[]] ++ [⟨0, ["a"], 1, true⟩, ⟨1, ["a"], 1, true⟩] :: [[⟨0, ["b"], 2, true⟩, ⟨1, ["b"], 2, true⟩]] ∧
+    openedCount (mustExtract (exK 1) [(exTree2, {})]) = 4 := by decide
+/-- never reached: 4 `Extract` calls owed, cancellation in the 5th -/
+example : openedCount (mustExtract (exK 5) [(exTree2, {})]) < 5 := by decide
 
 end Scalibr.Walk
